@@ -267,7 +267,8 @@ class Check(PropertyCheck):
                     "mitmproxy.proxy.layers.quic._events:QuicConnectionClosed",
                     "mitmproxy.proxy.layers.quic._commands:SendQuicStreamData", "mitmproxy.proxy.layers.quic._commands:ResetQuicStream",
                     "mitmproxy.proxy.layers.quic._commands:StopSendingQuicStream",
-                    "mitmproxy.proxy.layers.tcp:TCPLayer", "mitmproxy.proxy.layer:Layer.handle_event"]
+                    "mitmproxy.proxy.layers.tcp:TCPLayer", "mitmproxy.proxy.layer:Layer.handle_event",
+                    "mitmproxy.proxy.layer:Layer._Layer__continue"]
     trusted_base = ["harness/common/world.py as the stand-in for proxy/server.py", "aioquic stream_is_client_initiated / stream_is_unidirectional (id & 1, id & 2)"]
     parallel = False              # set per tier in setup(): process pool only for the thorough tier
 
